@@ -306,9 +306,18 @@ def run_emd(case, r):
             m[c] = cnt
         comps.append(m)
     centres = lambda m: (np.array([[(c[a] + 0.5) * vs[a] for a in range(2)] for c in cells]) * (m.ravel()[:, None] * vol)).sum(axis=0)  # noqa: E731
+    from mc.canon import digest
+
     for a, b in itertools.product(comps, comps):
-        d = emd(Wh.make_image(a, vs), Wh.make_image(b, vs))
-        d2 = emd(Wh.make_image(b, vs), Wh.make_image(a, vs))
+        # the same Image objects are used for both orders (as distance_matrix or a user
+        # comparing both directions would): evaluating a distance must not change them
+        ia, ib = Wh.make_image(a, vs), Wh.make_image(b, vs)
+        before = digest([ia, ib])
+        d = emd(ia, ib)
+        d2 = emd(ib, ia)
+        r.check(digest([ia, ib]) == before, "C05/emd/arguments-unchanged", "computing the EMD leaves both images unchanged", a=a.ravel().tolist(), b=b.ravel().tolist())
+        dfresh = emd(Wh.make_image(a, vs), Wh.make_image(b, vs))
+        r.check(dfresh == d, "C05/emd/repeatable", "the EMD of re-used image objects equals that of fresh ones", d=d, d_fresh=dfresh)
         tol = 1e-5 * max(1.0, abs(d))
         r.check(abs(d - d2) <= tol, "C05/emd/symmetry", "EMD(a,b) = EMD(b,a)", d=d, d2=d2)
         d3 = emd(Wh.make_image(3 * a, vs), Wh.make_image(3 * b, vs))
